@@ -206,7 +206,9 @@ pub mod checks {
         rep.evaluations += 1;
         watch(&rep.group, || format!("query {} on {}", show(q), docv));
         let mut union_multi = false;
-        let want = { let c = Ctx::new(doc); let r = c.query(q); union_multi = c.union_multi.get(); r };
+        let mut ext_multi = false;
+        let want = { let c = Ctx::new(doc); let r = c.query(q); union_multi = c.union_multi.get(); ext_multi = c.ext_multi.get(); r };
+        if ext_multi { rep.evaluations -= 1; return None; }   // an extension-function argument selected several nodes: outside C14, not compared
         let got = catch_unwind(AssertUnwindSafe(|| js_path_process(q, doc)));
         // input class of the failing input (computed only when something fails)
         let feats_of = || { let mut f = features(&q.segments, docv);
@@ -491,6 +493,7 @@ pub mod checks {
                 let want: Vec<(usize, String)> = c.query(q).into_iter().map(|n| (n.v as *const Value as usize, n.path)).collect();
                 let mut feats = features(&q.segments, d);
                 if !c.union_multi.get() { feats.retain(|f| f != "multi-selector-segment"); }
+                if c.ext_multi.get() { rep.evaluations -= 1; continue; }   // an extension-function argument selected several nodes: outside C14, not compared
                 let w = |extra: Value| json!({"text": text, "query": show(q), "doc": d, "qi": qi, "di": di, "detail": extra});
                 match catch_unwind(AssertUnwindSafe(|| js_path(&text, d))) {
                     Err(_) => rep.fail(&format!("{}.no_panic", name), &feats, w(json!("panic"))),
